@@ -1602,6 +1602,30 @@ pub fn gen_conc_mode(id: usize, seed: u64, tier_big: bool, mode: &str) -> ConcCa
             }
             (programs, cap, prefill, hashes, class)
         }
+        "tree" if rng.chance(1, 4) => {
+            // a tree bin that is shrunk to the point where it is converted back into a list, by
+            // removals of both kinds, while other writers work on the same bin
+            let hc = if rng.chance(1, 2) { "zero" } else { "samebin" };
+            let hashes = crate::gen::gen_hashes(&mut rng, hc, 40);
+            let pre = 9 + rng.below(2) as usize;
+            let prefill: Vec<(u32, u64, u32)> = (0..pre).map(|i| ((i + 1) as u32, rng.below(5), fresh())).collect();
+            let mut ks: Vec<u32> = (1..=pre as u32).collect();
+            for i in (1..ks.len()).rev() {
+                let j = rng.below(i as u64 + 1) as usize;
+                ks.swap(i, j);
+            }
+            let mut programs = vec![vec![], vec![]];
+            for (i, k) in ks.iter().take(pre - 2).enumerate() {
+                programs[i % 2].push(if rng.chance(1, 2) { COp::CipRm(*k) } else { COp::Rm(*k) });
+            }
+            let mut w = vec![];
+            for _ in 0..(2 + rng.below(3)) {
+                let k = 1 + rng.below(pre as u64 + 2) as u32;
+                w.push(match rng.below(4) { 0 => COp::Ins(k, rng.below(5), fresh()), 1 => COp::CipInc(k, fresh()), 2 => COp::Get(k), _ => COp::Ins(20 + rng.below(4) as u32, 1, fresh()) });
+            }
+            programs.push(w);
+            (programs, 64, prefill, hashes, "tree-shrink")
+        }
         "tree" => {
             // all keys collide; table of 64+ bins; 7..11 keys prefilled so that threads cross the
             // treeify / untreeify boundaries together
@@ -1648,6 +1672,15 @@ pub fn gen_conc_mode(id: usize, seed: u64, tier_big: bool, mode: &str) -> ConcCa
                     });
                 }
                 programs.push(p);
+            }
+            if rng.chance(1, 2) {
+                // a reservation races the very first insert: both want to create the first table
+                let n = 1 + rng.below(40) as usize;
+                programs[0].insert(0, COp::Reserve(n));
+                if !matches!(programs[1].first(), Some(COp::Ins(..))) {
+                    next_key += 1;
+                    programs[1].insert(0, COp::Ins(next_key, 1, fresh()));
+                }
             }
             (programs, 0usize, vec![], hashes, "first")
         }
